@@ -106,6 +106,17 @@ def scenario(c):
                     if sub.Get_rank() == sroot:
                         out.append(float(len(blk[3])))
                     blk = g.getBlockForFig([None] * d, sub, sub.Get_size() - 1)
+            # a complex grid (phi is one) gathered for a figure: the imaginary parts are round-off of different size on
+            # different ranks (none on the first rank); every rank must hand the same datatype to the gather
+            gc = Grid(eta, [None] * len(N), h, names[0], comm, dtype=np.complex128)
+            rk = comm.Get_rank()
+            gc.getAllData()[:] = (rk + 1.0) + 1j * (0.0 if rk == 0 else 1.0e-9 * (rk + 1))
+            for nm in names[:2]:
+                gc.setLayout(nm)
+                blk = gc.getBlockForFig([None] * len(N), comm, root)
+                for sub in h.communicators:
+                    blk = gc.getBlockForFig([None] * len(N), sub, sub.Get_size() - 1)
+                    blk = gc.getBlockForFig([None] * len(N), sub, 0)
             return [None if x is None else float(x) for x in out]
     elif kind == 'setupsave':
         nranks, given = P[:2]
